@@ -475,8 +475,14 @@ class Function:
         finally:
             try:
                 if task in cls.task2cb:
-                    for callback, info in cls.task2cb[task]["cb"].items():
-                        ast_ctx, args, kwargs = info
+                    #
+                    # a done callback can remove or add done callbacks of this task, so
+                    # they are taken one at a time instead of iterating over the dict
+                    #
+                    callbacks = cls.task2cb[task]["cb"]
+                    while callbacks:
+                        callback = next(iter(callbacks))
+                        ast_ctx, args, kwargs = callbacks.pop(callback)
                         try:
                             await ast_ctx.call_func(callback, None, *args, **kwargs)
                         except Exception as e:
